@@ -64,6 +64,29 @@ def split_seqs(il, ml):
     return seqs
 
 
+def unmerged_rows(c, exe_ml, seqs, idx):
+    """Model results of the sequences seqs[i], i in idx, under the model of the levelIterator from before the merging
+    repair (driver argument "nomerge" = Model.step_iter_unmerged). -> {i: [model result per row]}"""
+    path = os.path.join(c.workdir, "unmerged.txt")
+    with open(path, "w") as f:
+        for i in idx:
+            f.write("reset u%d\n" % i)
+            for r in seqs[i][1]:
+                f.write(r[0] + "\n")
+    rc, mo, me = V.sh("%s nomerge < %s" % (exe_ml, path), timeout=1800)
+    if rc != 0:
+        raise RuntimeError("model driver failed (nomerge): %s" % me[-1500:])
+    out, cur = {}, None
+    for line in mo.splitlines():
+        g = line.split("\t")
+        if g[0].startswith("reset u"):
+            cur = int(g[0][len("reset u"):])
+            out[cur] = []
+        elif cur is not None:
+            out[cur].append(g[1] if len(g) > 1 else "")
+    return out
+
+
 def first_failure(rows):
     """index and kind of the first line where the reference predicate fails ('ref') or the model differs ('diff')."""
     for i, (op, impl, ref, model) in enumerate(rows):
@@ -167,6 +190,30 @@ def main(tier, replay=None):
         return c.finish(TRUSTED, no_input_break=str(ex))
     c.log("ran %d sequences" % len(seqs))
 
+    # The implementation under test may still carry the levelIterator from before the merging repair (the recorded
+    # finding write-tx-iterator-not-view): a sequence that differs from the model of the code as it is now (Model.step)
+    # but agrees line by line with the model of that iterator (Model.step_iter_unmerged, theorems
+    # C11_seek_write_tx_unmerged / C11_write_iter_not_view_refuted) shows that finding and nothing else.
+    unmerged_hits = []
+    cand = [n for n, (sid, rows) in enumerate(seqs) if first_failure(rows)[1] == "diff"]
+    if cand:
+        try:
+            um = unmerged_rows(c, exe, seqs, cand)
+        except RuntimeError as ex:
+            return c.finish(TRUSTED, no_input_break=str(ex))
+        for n in cand:
+            sid, rows = seqs[n]
+            alt = um.get(n, [])
+            if len(alt) != len(rows):
+                continue
+            rows2 = [(r[0], r[1], r[2], m) for r, m in zip(rows, alt)]
+            if first_failure(rows2)[0] is None:
+                i = first_failure(rows)[0]
+                unmerged_hits.append((sid, [r[0] for r in rows[:i + 1]], rows[i][0], rows[i][1], rows[i][3]))
+                seqs[n] = (sid, rows2)
+        c.log("%d of %d sequences differing from the model follow the model of the iterator before the merging repair"
+              % (len(unmerged_hits), len(cand)))
+
     # ---- verdicts
     lines = 0
     judged = 0
@@ -191,19 +238,24 @@ def main(tier, replay=None):
         i, kind = first_failure(rows)
         if i is not None:
             failures.append((sid, rows, i, kind))
-        # the recorded finding: an iterator of a write transaction that has touched the range yields the committed
-        # entries as they are followed by the net puts (what the design does, theorem C11_seek_write_tx) instead of the
-        # transaction's view; reported under its own key, once, with the first sequence showing it
+        # the recorded finding (code before the merging repair of levelIterator): an iterator of a write transaction that
+        # has touched the range yields the committed entries as they are followed by the net puts (theorem
+        # C11_seek_write_tx_unmerged) instead of the transaction's view; reported under its own key, once, with the
+        # first sequence showing it
         for j, (op, impl, ref, model) in enumerate(rows):
             if ref.startswith("KF:"):
                 kf_hits.append((sid, [r[0] for r in rows[:j + 1]], op, impl, ref[3:]))
                 break
 
+    n_ref_hits = len(kf_hits)
+    kf_hits += unmerged_hits
     if kf_hits:
         sid, ops, op, impl, want = min(kf_hits, key=lambda h: len(h[1]))
         c.violation("write-tx-iterator-not-view",
                     "sequence %s (%d ops): `%s` on an iterator of the write transaction returned %s, the transaction's own view requires %s "
-                    "(%d sequences of this run show it)" % (sid, len(ops), op, impl[:200], want[:200], len(kf_hits)),
+                    "(%d sequences of this run show it by the reference map, %d follow the model of the iterator before the merging "
+                    "repair, step_iter_unmerged, instead of the model of the merging iterator)"
+                    % (sid, len(ops), op, impl[:200], want[:200], n_ref_hits, len(unmerged_hits)),
                     {"ops": ops, "failing_op": op, "impl": impl, "view": want, "rerun": "/verif/build/bin/c11 -replay <file with these ops, one per line>"})
     seen_keys = set()
     diffs_only = []
